@@ -13,6 +13,7 @@ import GstVerif.Cov.Driver
 import GstVerif.Trans.Driver
 import GstVerif.Mesh.Driver
 import GstVerif.Simu.Driver
+import GstVerif.Fit.Driver
 /-
   gstmodel: line-protocol driver.  One request per input line:
       <model> <op> <args…> => <implementation's answer…>
@@ -49,6 +50,7 @@ def dispatch0 (req impl : List String) : String :=
   | "t" :: args => Trans.handle args impl
   | "u" :: args => Mesh.handle args impl
   | "w" :: args => Simu.handle args impl
+  | "a" :: args => Fit.handle args impl
   | _ => "bad-op"
 
 /-- a request of a numerical model which its handler cannot parse because the implementation
